@@ -676,7 +676,8 @@ func genAlias(stream string, seed uint64, n int) []GenCase {
 	// them, a copy handed to a function that mutates its parameter, loop counters copied per iteration)
 	emit := func(t string) {
 		role := "repeat"
-		if strings.Contains(t, "if (!") {
+		if strings.Contains(t, "if (!") || strings.Contains(t, "Count") || strings.Contains(t, "Score") || strings.Contains(t, "Big") {
+			// (a field incremented by its own name becomes a variable of that name, which stays for the next run)
 			role = "" // state carried from run to run: the model decides what each run returns
 		}
 		c := Case{ID: fmt.Sprintf("%s-%d", stream, id), Script: t, Opt: id%2 == 0, Fns: []HostFn{recFn()}, Tags: []string{"alias-seq"}}
@@ -704,6 +705,11 @@ func genAlias(stream string, seed uint64, n int) []GenCase {
 		} {
 			emit(strings.ReplaceAll(t, "L", l))
 		}
+	}
+	// a FIELD of the object read into a variable, an array or a hash, then incremented by its own name: the copies stay
+	for _, t := range []string{"before = Count; Count++; return [before, Count];", "saved = [Score]; Score--; return [saved[0], Score];", "h = {\"c\": Count}; Count++; Count++; return [h, Count];",
+		"before = Big; Big += 1; return [before, Big];", "function keep(p) { return p; } k = keep(Count); Count--; return [k, Count];", "a = Count; b = Count; Count++; return [a, b, Count];"} {
+		emit(t)
 	}
 	// a loop's index / key / element copied out in one turn is a value of its own: later turns do not change it
 	for _, t := range []string{
